@@ -51,35 +51,72 @@ def case_strategy(draw):
         need = (0,) if rands == "unk" else (0, 2)
         scene = draw(gen.scene_case(theta_max, edges, ncat, need_z=need, **size))
         opts = {"rands": rands}
-    return {"mode": mode, "cfg": cfg, "theta_max": theta_max, "scene": scene, "opts": opts}
+    # occasionally the first catalog is created from a patch-index column and the others take
+    # their centres from that catalog (centres derived by the library instead of given)
+    scene["derived"] = draw(st.integers(0, 5)) == 0
+    again = draw(st.sampled_from([None, None, None, None, "closed", "edges", "shorter", "longer"]))
+    return {"mode": mode, "cfg": cfg, "theta_max": theta_max, "scene": scene, "opts": opts, "again": again}
 
 
-def measure(case, tmp, max_workers=1):
+def build_catalogs(case, tmp):
+    centers = case["scene"]["centers"]
+    cats = case["scene"]["cats"]
+    if case["scene"].get("derived"):
+        # first catalog from a patch-index column, the others take their centres from it
+        samples = pl.scene_samples(case["scene"])
+        if samples is None:
+            raise pl.SceneUnusable("derived centres leave a patch empty")
+        names = ["data", "rand"] if case["mode"] == "auto" else ["ref", "unk"] + {"unk": ["unk_rand"], "ref": ["ref_rand"], "both": ["ref_rand", "unk_rand"]}[case["opts"]["rands"]]
+        objs = {names[0]: pl.make_catalog(tmp / names[0], cats[0], patch_ids=samples[0].patch)}
+        for name, cat in zip(names[1:], cats[1:]):
+            objs[name] = pl.make_catalog(tmp / name, cat, objs[names[0]])
+        return objs
+    if case["mode"] == "auto":
+        return {"data": pl.make_catalog(tmp / "data", cats[0], centers), "rand": pl.make_catalog(tmp / "rand", cats[1], centers)}
+    rands = case["opts"]["rands"]
+    objs = {"ref": pl.make_catalog(tmp / "ref", cats[0], centers), "unk": pl.make_catalog(tmp / "unk", cats[1], centers)}
+    if rands == "unk":
+        objs["unk_rand"] = pl.make_catalog(tmp / "unk_rand", cats[2], centers)
+    elif rands == "ref":
+        objs["ref_rand"] = pl.make_catalog(tmp / "ref_rand", cats[2], centers)
+    else:
+        objs["ref_rand"] = pl.make_catalog(tmp / "ref_rand", cats[2], centers)
+        objs["unk_rand"] = pl.make_catalog(tmp / "unk_rand", cats[3], centers)
+    return objs
+
+
+def measure(case, tmp, max_workers=1, objs=None):
     """run the public pipeline; returns (config, list[CorrFunc], catalogs dict)"""
     import yaw
 
     cfg = pl.make_config(case["cfg"])
-    centers = case["scene"]["centers"]
-    cats = case["scene"]["cats"]
+    if objs is None:
+        objs = build_catalogs(case, tmp)
     if case["mode"] == "auto":
-        data = pl.make_catalog(tmp / "data", cats[0], centers)
-        rand = pl.make_catalog(tmp / "rand", cats[1], centers)
-        cfs = yaw.autocorrelate(cfg, data, rand, count_rr=case["opts"]["count_rr"], max_workers=max_workers)
-        return cfg, cfs, {"data": data, "rand": rand}
-    rands = case["opts"]["rands"]
-    ref = pl.make_catalog(tmp / "ref", cats[0], centers)
-    unk = pl.make_catalog(tmp / "unk", cats[1], centers)
-    kw = {}
-    objs = {"ref": ref, "unk": unk}
-    if rands == "unk":
-        kw["unk_rand"] = objs["unk_rand"] = pl.make_catalog(tmp / "unk_rand", cats[2], centers)
-    elif rands == "ref":
-        kw["ref_rand"] = objs["ref_rand"] = pl.make_catalog(tmp / "ref_rand", cats[2], centers)
-    else:
-        kw["ref_rand"] = objs["ref_rand"] = pl.make_catalog(tmp / "ref_rand", cats[2], centers)
-        kw["unk_rand"] = objs["unk_rand"] = pl.make_catalog(tmp / "unk_rand", cats[3], centers)
-    cfs = yaw.crosscorrelate(cfg, ref, unk, max_workers=max_workers, **kw)
+        cfs = yaw.autocorrelate(cfg, objs["data"], objs["rand"], count_rr=case["opts"]["count_rr"], max_workers=max_workers)
+        return cfg, cfs, objs
+    kw = {k: objs[k] for k in ("ref_rand", "unk_rand") if k in objs}
+    cfs = yaw.crosscorrelate(cfg, objs["ref"], objs["unk"], max_workers=max_workers, **kw)
     return cfg, cfs, objs
+
+
+def second_config(case, edges):
+    """the configuration of an optional second measurement on the same catalog objects in the
+    same process (the statement holds for *every* configuration, whatever was measured before)"""
+    kind = case.get("again")
+    if kind is None:
+        return None
+    cfg2 = dict(case["cfg"])
+    e = [float(x) for x in edges]
+    if kind == "closed":
+        cfg2["closed"] = "left" if cfg2["closed"] == "right" else "right"
+        return cfg2
+    if kind == "edges":  # same number of bins and outer edges, other interior edges
+        new = [e[0]] + [a + 0.37 * (b - a) for a, b in zip(e[1:-1], e[2:])] + [e[-1]] if len(e) > 2 else [e[0], 0.5 * (e[0] + e[1]), e[1]]
+    else:  # "prefix": the old edges are a leading part of the new ones, or vice versa
+        new = e[:-1] if len(e) > 2 and case["again"] == "shorter" else e + [e[-1] + (e[-1] - e[-2])]
+    cfg2.update(edges=new, zmin=None, zmax=None, num_bins=None, method="custom")
+    return cfg2
 
 
 def products(case):
@@ -117,8 +154,8 @@ def compare(case, cfg, cfs, ck: Checker):
     closed = str(cfg.binning.closed)
     cxyz = pl.to_xyz(*np.array(case["scene"]["centers"]).T)
     npatch = len(cxyz)
-    samples = [pl.Sample(c, cxyz) for c in case["scene"]["cats"]]
-    if min(s.margin.min() for s in samples if s.n) < 1e-12:
+    samples = pl.scene_samples(case["scene"])
+    if samples is None or min(s.margin.min() for s in samples if s.n) < 1e-12:
         return "discard"
     amin, amax = angles_for(case, edges)
     c = case["cfg"]
@@ -195,6 +232,8 @@ def compare(case, cfg, cfs, ck: Checker):
             if g1.shape != sw1.shape or not np.allclose(g1, sw1, rtol=1e-12, atol=0) or not np.allclose(g2, sw2, rtol=1e-12, atol=0):
                 ck.fail(f"sum_weights:{'auto' if auto else 'cross'}", f"{name}: got {g1.tolist()} / {g2.tolist()}, expected {sw1.tolist()} / {sw2.tolist()}")
     ck.nontrivial = nontrivial
+    if case["scene"].get("derived"):
+        ck.cls("centres-derived-from-first-catalog")
     ck.cls(f"mode:{case['mode']}", f"unit:{c['unit']}", f"method:{c['method']}", f"closed:{closed}", f"patches:{npatch if npatch < 10 else '>=10'}", f"scales:{ns}")
     if c["rweight"] is not None:
         ck.cls("rweight", "res<8" if c["resolution"] + 1 + 2 * ns < 8 else "res>=8")
@@ -225,6 +264,8 @@ def run_case(case):
     with Scratch() as tmp:
         try:
             cfg, cfs, cats = measure(case, tmp)
+        except pl.SceneUnusable:
+            return Result.discard("derived-centres-leave-a-patch-empty")
         except Exception as e:  # noqa
             ck.cls(f"mode:{case['mode']}")
             ck.nontrivial = True
@@ -232,6 +273,20 @@ def run_case(case):
             return ck.results()
         if compare(case, cfg, cfs, ck) == "discard":
             return Result.discard("equidistant-object")
+        cfg2 = second_config(case, np.asarray(cfg.binning.edges, dtype=float))
+        if cfg2 is not None and not ck.fails:
+            case2 = dict(case, cfg=cfg2)
+            try:
+                cfg_b, cfs_b, _ = measure(case2, tmp, objs=cats)
+            except Exception as e:  # noqa
+                ck.fail(f"second-measurement:{case['again']}|{exc_sig(e)}", f"{type(e).__name__}: {e}")
+                return ck.results()
+            ck2 = Checker()
+            compare(case2, cfg_b, cfs_b, ck2)
+            for r in ck2.fails:
+                ck.fail(f"second-measurement:{case['again']}:{r.sig}", r.detail)
+            ck.nontrivial = ck.nontrivial or ck2.nontrivial
+            ck.cls(f"second-measurement-on-same-catalogs:{case['again']}")
     return ck.results()
 
 
